@@ -111,6 +111,19 @@ REFACTORS = [
             if clash:
                 raise ValueError("identity clash between %r and %r" % (image, clash[0]))"""),
     ]},
+    {"name": "checksum-chunks-of-64k", "edits": [
+        (TI, """            chunk = fo.read(1024**2)""", """            chunk = fo.read(64 * 1024)"""),
+    ]},
+    {"name": "payload-mappings-are-ordereddicts", "edits": [
+        (RP, """        arches = self.rpms.setdefault(variant, {})
+        srpms = arches.setdefault(arch, {})
+        rpms = srpms.setdefault(srpm_nevra, {})""", """        from collections import OrderedDict
+        arches = self.rpms.setdefault(variant, OrderedDict())
+        srpms = arches.setdefault(arch, OrderedDict())
+        rpms = srpms.setdefault(srpm_nevra, OrderedDict())"""),
+        (IM, """        self.checksums = {}             #: (*str*)""", """        import collections
+        self.checksums = collections.OrderedDict()             #: (*str*)"""),
+    ]},
     {"name": "discinfo-trailing-newline+variant-add-local-names", "edits": [
         (DI, """        f.write("\\n".join(parser))""", """        f.write("\\n".join(parser) + "\\n")"""),
     ]},
